@@ -6,3 +6,9 @@ const RaceEnabled = false
 
 func raceOff() {}
 func raceOn()  {}
+
+func RaceOff() {}
+func RaceOn()  {}
+
+func raceGStart(g uintptr) {}
+func raceGExit(g uintptr)  {}
